@@ -3,6 +3,8 @@
 package lab
 
 import (
+	"github.com/saucelabs/forwarder"
+	"github.com/saucelabs/forwarder/proxyproto"
 	"bufio"
 	"bytes"
 	"context"
@@ -40,13 +42,21 @@ type C11Case struct {
 	Conns      []C11Conn `json:"conns"`
 	DeadlineMs int       `json:"deadline_ms"`
 	Acts       []C11Act  `json:"acts"`
+	// Stack: "" plain listener | "pp" PROXY-protocol listener (every client sends a v1 header first; a connection in
+	// phase pp-pending has not sent it yet when shutdown begins - it is "accepted" but not yet being served)
+	Stack string `json:"stack,omitempty"`
 }
 
 func genC11(t *rapid.T) C11Case {
 	c := C11Case{Mode: rapid.SampledFrom([]string{"bare", "bare", "forwarder"}).Draw(t, "mode"), DeadlineMs: rapid.SampledFrom([]int{150, 400, 1200}).Draw(t, "deadline")}
+	phases := []string{"idle-new", "idle-after", "partial-head", "at-origin", "at-origin", "mid-response", "mid-response", "tunnel"}
+	if rapid.IntRange(0, 2).Draw(t, "ppstack") == 0 {
+		c.Stack = "pp"
+		phases = append(phases, "pp-pending", "pp-pending", "pp-pending")
+	}
 	n := rapid.IntRange(1, 8).Draw(t, "nconns")
 	for i := 0; i < n; i++ {
-		c.Conns = append(c.Conns, C11Conn{Phase: rapid.SampledFrom([]string{"idle-new", "idle-after", "partial-head", "at-origin", "at-origin", "mid-response", "mid-response", "tunnel"}).Draw(t, "phase"),
+		c.Conns = append(c.Conns, C11Conn{Phase: rapid.SampledFrom(phases).Draw(t, "phase"),
 			BodyLen: rapid.SampledFrom([]int{0, 10, 5000, 70000}).Draw(t, "bodylen")})
 	}
 	m := rapid.IntRange(0, 2*n+2).Draw(t, "nacts")
@@ -84,6 +94,8 @@ type c11Resp struct {
 	eof bool // connection closed by the proxy after the response
 	respAt, eofAt time.Time // response completely read; end-of-stream seen
 }
+
+const c11PPTimeout = 700 * time.Millisecond
 
 func c11Origin() (*Peer, error) {
 	e, err := getFlt() // reuse the fault laboratory's scripted plain origin and its name mapping
@@ -131,11 +143,18 @@ func runC11once(c C11Case) (fails []vstat.Failure) {
 		}
 		accepted = &countingListener{Listener: ln}
 		bareLn = accepted
+		if c.Stack == "pp" {
+			bareLn = &proxyproto.Listener{Listener: accepted, ReadHeaderTimeout: c11PPTimeout}
+		}
 		bare = &martian.Proxy{RoundTripper: &http.Transport{}, AllowHTTP: true, WithoutWarning: true, ConnectTimeout: 5 * time.Second}
 		go func() { serveDone <- bare.Serve(bareLn) }()
 		addr = ln.Addr().String()
 	} else {
-		fw, err = StartProxy(ProxyOpts{ShutdownTimeout: deadline})
+		o := ProxyOpts{ShutdownTimeout: deadline}
+		if c.Stack == "pp" {
+			o.ProxyProtocol = &forwarder.ProxyProtocolConfig{ReadHeaderTimeout: c11PPTimeout}
+		}
+		fw, err = StartProxy(o)
 		if err != nil {
 			return []vstat.Failure{vstat.Failf("C11:harness", "proxy: %v", err)}
 		}
@@ -166,9 +185,12 @@ func runC11once(c C11Case) (fails []vstat.Failure) {
 		}
 		cl.conn, cl.br = tc, bufio.NewReaderSize(tc, 128<<10)
 		defer tc.Close()
+		if c.Stack == "pp" && spec.Phase != "pp-pending" {
+			tc.Write([]byte(ppLine))
+		}
 		host := origin.Addr
 		switch spec.Phase {
-		case "idle-new":
+		case "idle-new", "pp-pending":
 		case "idle-after":
 			fmt.Fprintf(tc, "GET http://%s/pre HTTP/1.1\r\nHost: %s\r\n\r\n", host, host)
 			tc.SetReadDeadline(time.Now().Add(5 * time.Second))
@@ -237,6 +259,10 @@ func runC11once(c C11Case) (fails []vstat.Failure) {
 	}
 	_ = acceptedBefore
 
+	pp := ""
+	if c.Stack == "pp" {
+		pp = ppLine
+	}
 	// ---- shutdown begins
 	var probe *net.TCPConn
 	shutdownRet := make(chan error, 1)
@@ -259,7 +285,7 @@ func runC11once(c C11Case) (fails []vstat.Failure) {
 		if pc, err := Dial(addr); err == nil {
 			probe = pc
 			defer pc.Close()
-			fmt.Fprintf(pc, "GET http://%s/probe HTTP/1.1\r\nHost: %s\r\nX-Vid: %d-probe\r\n\r\n", origin.Addr, origin.Addr, id)
+			fmt.Fprintf(pc, "%sGET http://%s/probe HTTP/1.1\r\nHost: %s\r\nX-Vid: %d-probe\r\n\r\n", pp, origin.Addr, origin.Addr, id)
 		}
 	} else {
 		fw.Cancel()
@@ -299,6 +325,9 @@ func runC11once(c C11Case) (fails []vstat.Failure) {
 				continue
 			}
 			cl.sentLate = cl.vid + "-late"
+			if cl.spec.Phase == "pp-pending" {
+				cl.conn.Write([]byte(ppLine)) // the PROXY header arrives only now
+			}
 			if a.Op == "send-connect" {
 				// a tunnel request first sent during shutdown must not be established either
 				fmt.Fprintf(cl.conn, "CONNECT %s HTTP/1.1\r\nHost: %s\r\n\r\n", origin.Addr, origin.Addr)
@@ -313,7 +342,7 @@ func runC11once(c C11Case) (fails []vstat.Failure) {
 		case "newconn":
 			pc, err := net.DialTimeout("tcp", addr, time.Second)
 			if err == nil {
-				fmt.Fprintf(pc, "GET http://%s/new HTTP/1.1\r\nHost: %s\r\nX-Vid: %d-new\r\n\r\n", origin.Addr, origin.Addr, id)
+				fmt.Fprintf(pc, "%sGET http://%s/new HTTP/1.1\r\nHost: %s\r\nX-Vid: %d-new\r\n\r\n", pp, origin.Addr, origin.Addr, id)
 				closed, extra, _ := WaitClosed(pc, nil, 2*time.Second)
 				pc.Close()
 				if len(extra) > 0 || !closed {
@@ -547,7 +576,7 @@ func (l *countingListener) Accept() (net.Conn, error) {
 func (l *countingListener) n() int { l.mu.Lock(); defer l.mu.Unlock(); return l.c }
 
 func classifyC11(c C11Case) (bool, string, []string) {
-	cls := []string{"mode-" + c.Mode, fmt.Sprintf("conns=%d", len(c.Conns)), fmt.Sprintf("deadline=%dms", c.DeadlineMs)}
+	cls := []string{"mode-" + c.Mode, "stack-" + c.Stack, fmt.Sprintf("conns=%d", len(c.Conns)), fmt.Sprintf("deadline=%dms", c.DeadlineMs)}
 	phases := map[string]bool{}
 	inflight := false
 	for _, x := range c.Conns {
